@@ -206,6 +206,108 @@ def wfDefs : List Definition → Bool
 
 def wfDocument (d : Document) : Bool := !d.defs.isEmpty && wfDefs d.defs
 
+/-! ### Production depth
+
+  `pd… x` is the height of the production call stack a recursive-descent recogniser needs for `x`
+  (the number of nested `enter()`s, counting the production that parses `x` itself). It depends on the
+  *nesting* of `x` only: every list of siblings contributes the maximum over its members, never a sum. -/
+
+def pdName : Nat := 1
+def pdVariable : Nat := 1 + pdName
+def pdNamedType : Nat := 1 + pdName
+def pdTypeCondition : Nat := 1 + pdNamedType
+def pdOperationType : Nat := 1
+
+def pdType : TypeExpr → Nat
+  | .named _ => 1 + pdNamedType
+  | .list t _ _ => 1 + pdType t
+  | .nonNull t => pdType t
+
+mutual
+def pdValue : Value → Nat
+  | .var _ => 1 + pdVariable
+  | .list vs _ _ => 1 + pdValues vs
+  | .obj fs _ _ => 1 + pdFields fs
+  | _ => 1
+def pdValues : List Value → Nat
+  | [] => 0
+  | v :: vs => max (pdValue v) (pdValues vs)
+def pdFields : List (Name × Value) → Nat
+  | [] => 0
+  | (_, v) :: fs => max (max pdName (pdValue v)) (pdFields fs)
+end
+
+def pdArgument (a : Argument) : Nat := 1 + max pdName (pdValue a.value)
+
+def pdArgList : List Argument → Nat
+  | [] => 0
+  | a :: as => max (pdArgument a) (pdArgList as)
+
+/-- parseOptionalArguments -/
+def pdArgs (as : List Argument) : Nat := 1 + pdArgList as
+
+def pdDirList : List Directive → Nat
+  | [] => 0
+  | d :: ds => max (max pdName (pdArgs d.args)) (pdDirList ds)
+
+/-- parseOptionalDirectives -/
+def pdDirs (ds : List Directive) : Nat := 1 + pdDirList ds
+
+def pdVarDef (v : VarDef) : Nat :=
+  1 + max pdVariable (max (pdType v.type)
+    (match v.default with
+     | some d => pdValue d
+     | none => 0))
+
+def pdVarDefList : List VarDef → Nat
+  | [] => 0
+  | v :: vs => max (pdVarDef v) (pdVarDefList vs)
+
+/-- parseOptionalVariableDefinitions -/
+def pdVarDefs (vs : List VarDef) : Nat := 1 + pdVarDefList vs
+
+mutual
+/-- parseSelection -/
+def pdSelection : Selection → Nat
+  | .field _ _ args dirs sel =>
+    -- parseSelection → parseField → {parseName, parseOptionalArguments, parseOptionalDirectives, parseOptionalSelectionSet}
+    1 + (1 + max pdName (max (pdArgs args) (max (pdDirs dirs)
+      (1 + (match sel with
+            | some s => pdSelSet s
+            | none => 0)))))
+  | .spread _ _ dirs => 1 + max pdName (pdDirs dirs)
+  | .inline _ tc dirs sel =>
+    1 + max (match tc with
+             | some _ => pdTypeCondition
+             | none => 0) (max (pdDirs dirs) (pdSelSet sel))
+/-- parseSelectionSet -/
+def pdSelSet : SelSet → Nat
+  | .mk sels _ _ => 1 + pdSels sels
+def pdSels : List Selection → Nat
+  | [] => 0
+  | s :: ss => max (pdSelection s) (pdSels ss)
+end
+
+/-- parseDefinition -/
+def pdDefinition : Definition → Nat
+  | .op none _ _ _ sel =>
+    -- parseDefinition → {parseOptionalFragmentDefinition, parseOperationDefinition → parseOptionalSelectionSet → parseSelectionSet}
+    1 + max 1 (1 + (1 + pdSelSet sel))
+  | .op (some _) name vars dirs sel =>
+    1 + max 1 (1 + max 1 (max pdOperationType (max (match name with
+                                                     | some _ => pdName
+                                                     | none => 0)
+      (max (pdVarDefs vars) (max (pdDirs dirs) (pdSelSet sel))))))
+  | .frag _ _ _ dirs sel =>
+    1 + (1 + max pdName (max pdTypeCondition (max (pdDirs dirs) (pdSelSet sel))))
+
+def pdDefs : List Definition → Nat
+  | [] => 0
+  | d :: ds => max (pdDefinition d) (pdDefs ds)
+
+/-- parseDocument -/
+def pdDocument (d : Document) : Nat := 1 + pdDefs d.defs
+
 /-! ### Rendering -/
 
 /-- A concrete token is a rendering of a spec token. -/
